@@ -85,4 +85,48 @@ theorem C32_no_effect_partial (closure undo : List Ev) (closureOk : Bool) (s : S
 
 example : noWriteBeforeFail (br (br [Ev.fail, Ev.write 1 1])) = true := by decide
 
+-- tolerant closures (a failed query's error is swallowed by the closure, which returns Ok) -------------
+
+theorem wellNested_zero_any (es : List Ev) (h : wellNested 0 es = true) : ∀ r, wellNested r es = true := by
+  intro r
+  induction r with
+  | zero => exact h
+  | succ r ih => exact wellNested_mono es r ih
+
+theorem runTol_inside (qs : List (List Ev)) :
+    ∀ s : St, 1 ≤ s.depth → (∀ q ∈ qs, wellNested 0 q = true) → Inv s →
+      1 ≤ (runTol qs s).depth ∧ Inv (runTol qs s) ∧ (runTol qs s).committed = s.committed := by
+  induction qs with
+  | nil => intro s hd _ hi; exact ⟨hd, hi, rfl⟩
+  | cons q qs ih =>
+    intro s hd hq hi
+    have hw : wellNested (s.depth - 1) q = true := wellNested_zero_any q (hq q (by simp)) _
+    have h := run_inside q s 1 (s.depth - 1) (by omega) (by omega) hw hi
+    obtain ⟨_, hi', hc', hd'⟩ := h
+    have h2 := ih (run q s).final hd' (fun q' hq' => hq q' (by simp [hq'])) hi'
+    simp only [runTol]
+    exact ⟨h2.1, h2.2.1, by rw [h2.2.2, hc']⟩
+
+/-- `C32_depth_restored` for closures that swallow the error of a failed query and return Ok: whatever
+brackets the failed queries left open (any number of queries, any failing call in each), the step ends
+with `Storage::transactions = 0`, the log cleared and the in-process image committed — because
+`transaction_mut` closes with `commit_outermost` on the Ok path too. -/
+theorem C32_depth_restored_tolerant (qs : List (List Ev)) (s : St) (hs : Clean s)
+    (hq : ∀ q ∈ qs, wellNested 0 q = true) :
+    (txnFixedTol qs s).depth = 0 ∧ (txnFixedTol qs s).log = [] ∧
+    (txnFixedTol qs s).committed = (txnFixedTol qs s).data := by
+  have hb : 1 ≤ s.begin.depth := by simp [St.begin]
+  have h := runTol_inside qs s.begin hb hq (inv_begin s (clean_inv s hs))
+  unfold txnFixedTol
+  rw [hs.1, Nat.zero_add, commitOutermost_flush _ h.1]
+  exact ⟨rfl, rfl, rfl⟩
+
+/-- Without `commit_outermost` on the Ok path (seeded change C32/s1) the counter stays up: one query that
+fails inside its bracket, swallowed by the closure. Every later query then runs nested and is never
+flushed. -/
+theorem C32_plain_commit_tolerant_counterexample :
+    (txnPlainCommitTol [[Ev.begin, Ev.write 1 1, Ev.fail, Ev.commit]] St.init).depth = 1 := by decide
+
+example : (txnFixedTol [[Ev.begin, Ev.write 1 1, Ev.fail, Ev.commit], br [Ev.write 2 2]] St.init).depth = 0 := by decide
+
 end AgdbCrash
